@@ -32,4 +32,21 @@ def accepted (k : Kind) : List (St × Ev × List Out) → List Val
       if k' = k ∧ st.accepts k p = true then v :: accepted k xs else accepted k xs
   | _ :: xs => accepted k xs
 
+/-- how updater `p`'s own `active` flag evolves: start()/stop() set it for registered
+    updaters, and it may change by itself (error, cancellation, restart by the protocol) -/
+def actStep (regP : List Proto) (p : Proto) (a : Bool) : Ev → Bool
+  | .start => if p ∈ regP then true else a
+  | .stop => if p ∈ regP then false else a
+  | .selfact q b => if p = q then b else a
+  | _ => a
+
+/-- the history with every "updater turns (in)active by itself" event removed -/
+def dropSelfact : List Ev → List Ev
+  | [] => []
+  | .selfact _ _ :: es => dropSelfact es
+  | e :: es => e :: dropSelfact es
+
+/-- the state with the updaters' own `active` flags forgotten -/
+def St.forget (st : St) : St := { st with act := fun _ => false }
+
 end PyatvModel.C10
